@@ -525,3 +525,61 @@ func TestC18Targeted(t *testing.T) {
 			})
 		}))
 }
+
+// TestC18ManyBlocks (plain binary, no race detector needed): the block latch has 128 shards, so
+// block b and block b+128 share one. A collection of a little more than 128 blocks is built, an
+// index and a transaction spanning two blocks of one shard must terminate, and the index must be
+// right. One goroutine only: a call that does not return is a lock taken twice or never released.
+func TestC18ManyBlocks(t *testing.T) {
+	const blocks = 130
+	n := (blocks-1)*16384 + 100
+	stop := Watchdog("C18", fmt.Sprintf("building, indexing and updating a collection of %d blocks (latch shards alias from block 128 on)", blocks), 90*time.Second, nil)
+	defer stop()
+	c := column.NewCollection(column.Options{Capacity: 1024, Vacuum: 24 * 3600 * 1e9})
+	defer c.Close()
+	c.CreateColumn("n", column.ForInt())
+	c.Query(func(txn *column.Txn) error {
+		for i := 0; i < n; i++ {
+			txn.Insert(func(r column.Row) error { r.SetInt("n", i%100); return nil })
+		}
+		return nil
+	})
+	if err := c.CreateIndex("big", "n", func(r column.Reader) bool { return r.Int() >= 50 }); err != nil {
+		t.Fatal(err)
+	}
+	want := 0
+	for i := 0; i < n; i++ {
+		if i%100 >= 50 {
+			want++
+		}
+	}
+	got := 0
+	c.Query(func(txn *column.Txn) error { got = txn.With("big").Count(); return nil })
+	if got != want {
+		t.Fatalf("C03 violated (index over %d blocks): With(big) selects %d rows, predicate holds for %d", blocks, got, want)
+	}
+	// one transaction writing block 0 and block 128 (same latch shard), then one reading both
+	c.Query(func(txn *column.Txn) error {
+		txn.QueryAt(5, func(r column.Row) error { r.SetInt("n", 99); return nil })
+		txn.QueryAt(128<<14+5, func(r column.Row) error { r.SetInt("n", 99); return nil })
+		txn.QueryAt(129<<14+5, func(r column.Row) error { r.MergeInt("n", 1); return nil })
+		return nil
+	})
+	var a, b int
+	c.Query(func(txn *column.Txn) error {
+		txn.QueryAt(5, func(r column.Row) error { a, _ = r.Int("n"); return nil })
+		return txn.QueryAt(128<<14+5, func(r column.Row) error { b, _ = r.Int("n"); return nil })
+	})
+	if a != 99 || b != 99 {
+		t.Fatalf("C01 violated (blocks 0 and 128 share a latch shard): rows 5 and %d read %d and %d after both were set to 99 in one transaction", 128<<14+5, a, b)
+	}
+	var buf bytes.Buffer
+	if err := c.Snapshot(&buf); err != nil {
+		t.Fatalf("Snapshot of %d blocks: %v", blocks, err)
+	}
+	c.DropIndex("big")
+	if err := c.CreateSortIndex("sorted", "n"); err == nil {
+		t.Log("sort index over a numeric column accepted")
+	}
+	RecordCase("C18", fmt.Sprintf("many blocks: %d blocks, index build, two-block transaction on one latch shard, snapshot", blocks), true, "latch-shard-aliasing")
+}
